@@ -197,7 +197,7 @@ package twig
 //@   nilable env engine
 //@   fresh
 //@   ensures !ret.sandboxed && ret.env == env && ret.engine == engine && ret.parent == nil
-//@   ensures[C01] !ret.extending && ret.currentBlock == nil && !ret.inParentCall
+//@   ensures[C01] !ret.extending && ret.currentBlock == nil && !ret.inParentCall && ret.lastLoadedTemplate == nil
 //@   ensures[C01] mapEmpty(ret.blocks) && mapEmpty(ret.parentBlocks) && mapEmpty(ret.macros)
 //@   ensures[C01] ret.context != nil && ret.context != context
 //@   ensures[C01] forall k string :: has(ret.context, k) == (context != nil && has(context, k))
@@ -206,7 +206,7 @@ package twig
 //@   fresh
 //@   ensures ret.sandboxed == ctx.sandboxed && ret.env == ctx.env && ret.engine == ctx.engine && ret.parent == ctx
 //@   ensures[C01] !ret.extending && ret.currentBlock == nil && !ret.inParentCall
-//@   ensures[C01] mapEmpty(ret.context) && mapEmpty(ret.parentBlocks)
+//@   ensures[C01] mapEmpty(ret.context) && mapEmpty(ret.parentBlocks) && ret.lastLoadedTemplate == ctx.lastLoadedTemplate
 //@   ensures[C01] ret.blocks != nil && ret.blocks != ctx.blocks && ret.macros != nil && ret.macros != ctx.macros
 //@ iface SecurityPolicy.IsFilterAllowed
 //@   assumed
